@@ -159,7 +159,7 @@ def print_assumptions(module: str, names: Sequence[str], tag: str, timeout: int 
     Returns (ok, {theorem: [axioms]}, log)."""
     d = BUILD / "assum"
     d.mkdir(parents=True, exist_ok=True)
-    f = d / f"A_{tag}.v"
+    f = d / f"A_{tag}_p{os.getpid()}.v"
     body = [f"From EV Require Import {module}.", 'Set Printing Width 100000.']
     for n in names:
         body.append(f'Goal True. idtac "@@BEGIN {n}". Abort.')
@@ -218,7 +218,7 @@ class CoqEval:
         d.mkdir(parents=True, exist_ok=True)
         files = []
         for si in range(0, len(self.exprs), shard):
-            f = d / f"{self.tag}_{si // shard}.v"
+            f = d / f"{self.tag}_p{os.getpid()}_{si // shard}.v"
             lines = [self.header, "Set Printing Width 1000000.", "Set Printing Depth 1000000."]
             for i, e in enumerate(self.exprs[si : si + shard]):
                 lines.append(f'Goal True. idtac "@@R {si + i}". Abort.')
@@ -355,7 +355,8 @@ class Ctx:
             "notes": self.notes,
         }
         (VERIF / "evidence").mkdir(exist_ok=True)
-        (VERIF / "evidence" / f"{self.prop}.json").write_text(json.dumps(ev, indent=1, default=str))
+        if self.tier != "replay":  # a replay must not overwrite the evidence of the last real run
+            (VERIF / "evidence" / f"{self.prop}.json").write_text(json.dumps(ev, indent=1, default=str))
         for line in self.known_lines:
             print(line)
         for o in self.obligations:
